@@ -210,6 +210,7 @@ def run(ctx):
                                          '%s is not accumulated as 0 + sum over the members of QUAL of the received sub-shares modulo q' % mname, f)
     r15e(ctx)
     r15f(ctx)
+    r15g(ctx)
     # the dealer-based sharing (receiving side): the same share check, complaint kept in a flag
     f = [g_ for g_ in prog.by_q.get('PedersenVSS::Share', []) if g_.get('body') and any(p_['n'] == 'dealer' for p_ in g_['params'])]
     if not f:
@@ -403,3 +404,84 @@ def r15f(ctx, files=None, rule='R15f', floor=5):
             else:
                 ctx.ok(rule, key, 'duplicate complaints are filtered per sender (table %s is local to one sender)' % ', '.join(sorted(tables.values())), f, line=lp.get('l'))
     ctx.floor(rule, n, floor)
+
+
+# armed where the failure was replayed against the library (replay/f15_unanswered_complaint.cc); the siblings have the same shape
+R15G_REPLAYED = ('JareckiLysyanskayaRVSS::Share',)
+
+
+def r15g(ctx):
+    """"forced to publish consistent ones": when the complaints of sender j are collected, a party must remember *who complained
+    about whom* -- otherwise the later resolution step, which reads the shares dealer `who` reveals up to its end marker, cannot
+    tell an answered complaint from an ignored one, and a dealer that stays below the disqualification threshold and reveals
+    nothing remains qualified while the complainer keeps a share that does not match the commitments.  Necessary structural
+    condition: in the block that advances complaints_counter[who] the complainer j is stored in a container addressed by (or
+    together with) the accused `who`, for every accused, not only for the party itself."""
+    from ..facts import walk
+    prog = ctx.prog
+    FILES = ('JareckiLysyanskayaASTC.cc', 'CanettiGennaroJareckiKrawczykRabinASTC.cc', 'GennaroJareckiKrawczykRabinDKG.cc')
+    n = 0
+    for k, f in sorted(prog.funcs.items(), key=lambda kv: (kv[1]['file'], kv[1]['line'])):
+        if not f.get('body') or not f['file'].endswith(FILES):
+            continue
+        loops = []
+
+        def rec(s, enclosing):
+            if isinstance(s, list):
+                for x in s:
+                    rec(x, enclosing)
+                return
+            if not isinstance(s, dict):
+                return
+            if s.get('k') in ('for', 'while', 'do', 'forrange'):
+                loops.append((s, list(enclosing)))
+                enclosing = enclosing + [s]
+            for v in s.values():
+                if isinstance(v, (dict, list)):
+                    rec(v, enclosing)
+        rec(f['body'], [])
+        for lp, enclosing in loops:
+            if lp.get('k') not in ('do', 'while'):
+                continue
+            calls = [e for e in walk(lp.get('b')) if e.get('k') == 'mcall' and e.get('f', '').endswith('::DeliverFrom') and len(e.get('a', [])) >= 2]
+            if not calls:
+                continue
+            sender = calls[0]['a'][1]
+            while isinstance(sender, dict) and sender.get('k') == 'cast':
+                sender = sender['e']
+            sid = sender.get('id') if isinstance(sender, dict) else None
+            for e in walk(lp.get('b')):
+                if e.get('k') != 'if':
+                    continue
+                thn = e.get('t')
+                incs = [x for x in walk(thn) if x.get('k') == 'un' and '++' in x.get('op', '') and 'complaints_counter' in str(x.get('a'))]
+                if not incs:
+                    continue
+                # the accused: the variable that indexes the counter
+                acc = None
+                for x in walk(incs[0]):
+                    if x.get('k') == 'var' and 'complaints_counter' not in x.get('n', ''):
+                        acc = x.get('id')
+                recorded = False
+                for x in walk(thn):
+                    if x.get('k') == 'mcall' and x.get('f', '').split('::')[-1] in ('push_back', 'insert', 'emplace', 'emplace_back'):
+                        ids = set(y.get('id') for y in walk(x) if y.get('k') == 'var')
+                        if sid in ids and acc in ids:
+                            recorded = True
+                    if x.get('k') in ('bin', 'opcall') and x.get('op') == '=':
+                        ids = set(y.get('id') for y in walk(x) if y.get('k') == 'var')
+                        if sid in ids and acc in ids and 'complaints_counter' not in str(x)[:400]:
+                            recorded = True
+                n += 1
+                key = 'R15g:%s' % f['q']
+                if recorded:
+                    ctx.ok('R15g', key, 'the complainer is recorded together with the accused, so unanswered complaints can be told apart', f, line=e.get('l'))
+                elif f['q'] not in R15G_REPLAYED:
+                    ctx.note('R15g', key, 'same shape as the replayed finding in JareckiLysyanskayaRVSS::Share (complaints counted per accused only, complainers not kept); '
+                             'not replayed for this sibling, so reported as a note', f, line=e.get('l'))
+                else:
+                    ctx.bad('R15g', key, 'complaints are only counted per accused; who complained about whom is not kept (the complainers of the party itself excepted), so '
+                            'the resolution step cannot notice that a dealer answered none of the complaints against it: a dealer below the disqualification '
+                            'threshold that reveals nothing stays qualified and the complainer keeps a share that does not match the commitments', f, line=e.get('l'))
+                break
+    ctx.floor('R15g', n, 4)
